@@ -4,8 +4,10 @@
    DecodeZeroBitPlanes.
 
    As in the Go code the tree is a stack of per-level arrays nodes[level][idx], low[level][idx],
-   known[level][idx] with level 0 = leaves (w x h) and level i = ceil-halved i times; the
-   parent of (level, px, py) is (level+1, px/2, py/2) and idx = py*levelWidths[level] + px.
+   known[level][idx], unset[level][idx] with level 0 = leaves (w x h) and level i = ceil-halved
+   i times; the parent of (level, px, py) is (level+1, px/2, py/2) and
+   idx = py*levelWidths[level] + px.  unset[..] = the node still holds the reset placeholder
+   999 and not a value (inclusion trees carry layer numbers up to 65534).
    (`states` is written by Reset only and read nowhere: not modelled.)
 
    Index checks.  Every index expression of Encode / Decode is [level][idx] for a node of the
@@ -18,7 +20,8 @@ From V Require Import Common.Base T2.T2Bio.
 Record ttree : Type := {
   tt_w : Z; tt_h : Z;
   tt_lw : list Z; tt_lh : list Z;                  (* levelWidths / levelHeights *)
-  tt_nodes : list (list Z); tt_low : list (list Z); tt_known : list (list bool)
+  tt_nodes : list (list Z); tt_low : list (list Z); tt_known : list (list bool);
+  tt_unset : list (list bool)
 }.
 
 (* ---------- two-level arrays ---------- *)
@@ -59,15 +62,17 @@ Definition tt_new (w0 h0 : Z) : ttree :=
   {| tt_w := w; tt_h := h; tt_lw := map fst dims; tt_lh := map snd dims;
      tt_nodes := map (fun d => zrep 999 (fst d * snd d)) dims;
      tt_low := map (fun d => zrep 0 (fst d * snd d)) dims;
-     tt_known := map (fun d => zrep false (fst d * snd d)) dims |}.
+     tt_known := map (fun d => zrep false (fst d * snd d)) dims;
+     tt_unset := map (fun d => zrep true (fst d * snd d)) dims |}.
 
-(* ResetEncoding (and Reset, which additionally clears `states`): every node 999, low 0,
-   known false *)
+(* ResetEncoding (and Reset, which additionally clears `states`): every node 999 and unset,
+   low 0, known false *)
 Definition tt_reset (t : ttree) : ttree :=
   {| tt_w := tt_w t; tt_h := tt_h t; tt_lw := tt_lw t; tt_lh := tt_lh t;
      tt_nodes := map (map (fun _ => 999)) (tt_nodes t);
      tt_low := map (map (fun _ => 0)) (tt_low t);
-     tt_known := map (map (fun _ => false)) (tt_known t) |}.
+     tt_known := map (map (fun _ => false)) (tt_known t);
+     tt_unset := map (map (fun _ => true)) (tt_unset t) |}.
 
 (* ---------- the leaf-to-root stack ---------- *)
 
@@ -84,29 +89,33 @@ Definition tt_in_range (t : ttree) (x y : Z) : bool :=
 
 Definition tt_valid_id (t : ttree) (id : Z * Z) : bool :=
   valid2 (tt_nodes t) (fst id) (snd id) && valid2 (tt_low t) (fst id) (snd id)
-  && valid2 (tt_known t) (fst id) (snd id).
+  && valid2 (tt_known t) (fst id) (snd id) && valid2 (tt_unset t) (fst id) (snd id).
 
-Definition tt_with (t : ttree) (nodes : list (list Z)) (low : list (list Z)) (known : list (list bool))
+Definition tt_with (t : ttree) (nodes : list (list Z)) (low : list (list Z)) (known unset : list (list bool))
   : ttree :=
   {| tt_w := tt_w t; tt_h := tt_h t; tt_lw := tt_lw t; tt_lh := tt_lh t;
-     tt_nodes := nodes; tt_low := low; tt_known := known |}.
+     tt_nodes := nodes; tt_low := low; tt_known := known; tt_unset := unset |}.
 
 (* ---------- SetValue ---------- *)
 
 (* for level < levels { idx; if idx >= len(nodes[level]) break;
-     if nodes[level][idx] > value { nodes[level][idx] = value } else break; level++; px/=2; py/=2 } *)
-Fixpoint tt_setvalue_ids (nodes : list (list Z)) (ids : list (Z * Z)) (v : Z) : list (list Z) :=
+     if unset[level][idx] || nodes[level][idx] > value { nodes[level][idx] = value; unset = false }
+     else break; level++; px/=2; py/=2 } *)
+Fixpoint tt_setvalue_ids (nodes : list (list Z)) (unset : list (list bool)) (ids : list (Z * Z)) (v : Z)
+  : list (list Z) * list (list bool) :=
   match ids with
-  | [] => nodes
+  | [] => (nodes, unset)
   | (lv, idx) :: r =>
-    if idx >=? zlen (znth nodes lv []) then nodes
-    else if get2 nodes lv idx 0 >? v then tt_setvalue_ids (set2 nodes lv idx v) r v
-    else nodes
+    if idx >=? zlen (znth nodes lv []) then (nodes, unset)
+    else if get2 unset lv idx false || (get2 nodes lv idx 0 >? v)
+         then tt_setvalue_ids (set2 nodes lv idx v) (set2 unset lv idx false) r v
+    else (nodes, unset)
   end.
 
 Definition tt_setvalue (t : ttree) (x y v : Z) : ttree :=
   if tt_in_range t x y
-  then tt_with t (tt_setvalue_ids (tt_nodes t) (tt_path t x y) v) (tt_low t) (tt_known t)
+  then let nu := tt_setvalue_ids (tt_nodes t) (tt_unset t) (tt_path t x y) v in
+       tt_with t (fst nu) (tt_low t) (tt_known t) (snd nu)
   else t.
 
 (* GetValue *)
@@ -118,16 +127,16 @@ Definition tt_getvalue (t : ttree) (x y : Z) : Z :=
 
 (* ---------- Encode ---------- *)
 
-(* for low < threshold { if low >= node { if !known { WriteBit(1); known = true }; break };
+(* for low < threshold { if !unset && low >= node { if !known { WriteBit(1); known = true }; break };
                          WriteBit(0); low++ }
    runs at most threshold - low + 1 times *)
-Fixpoint tt_enc_loop (fuel : nat) (low thr v : Z) (known : bool) : list Z * Z * bool :=
+Fixpoint tt_enc_loop (fuel : nat) (low thr v : Z) (u known : bool) : list Z * Z * bool :=
   match fuel with
   | O => ([], low, known)
   | S f =>
     if low <? thr then
-      if low >=? v then ((if known then [] else [1]), low, true)
-      else let '(bs, l', k') := tt_enc_loop f (low + 1) thr v known in (0 :: bs, l', k')
+      if negb u && (low >=? v) then ((if known then [] else [1]), low, true)
+      else let '(bs, l', k') := tt_enc_loop f (low + 1) thr v u known in (0 :: bs, l', k')
     else ([], low, known)
   end.
 
@@ -142,8 +151,8 @@ Fixpoint tt_enc_nodes (t : ttree) (ids : list (Z * Z)) (low thr : Z) : list Z * 
     let nlow := get2 (tt_low t) lv idx 0 in
     let low1 := if low >? nlow then low else nlow in
     let '(bs, low2, k2) := tt_enc_loop (loop_fuel low1 thr) low1 thr (get2 (tt_nodes t) lv idx 0)
-                             (get2 (tt_known t) lv idx false) in
-    let t2 := tt_with t (tt_nodes t) (set2 (tt_low t) lv idx low2) (set2 (tt_known t) lv idx k2) in
+                             (get2 (tt_unset t) lv idx false) (get2 (tt_known t) lv idx false) in
+    let t2 := tt_with t (tt_nodes t) (set2 (tt_low t) lv idx low2) (set2 (tt_known t) lv idx k2) (tt_unset t) in
     let '(bs', t3) := tt_enc_nodes t2 r low2 thr in
     (bs ++ bs', t3)
   end.
@@ -156,16 +165,17 @@ Definition tt_encode (t : ttree) (x y thr : Z) : outcome (list Z * ttree) :=
 
 (* ---------- Decode ---------- *)
 
-(* for low < threshold && low < node { bit := ReadBit(); if bit != 0 { node = low } else { low++ } } *)
-Fixpoint tt_dec_loop (fuel : nat) (r : rd) (low thr v : Z) : outcome (Z * Z * rd) :=
+(* for low < threshold && (unset || low < node) { bit := ReadBit();
+     if bit != 0 { node = low; unset = false } else { low++ } } *)
+Fixpoint tt_dec_loop (fuel : nat) (r : rd) (low thr v : Z) (u : bool) : outcome (Z * Z * bool * rd) :=
   match fuel with
   | O => OutOfFuel
   | S f =>
-    if (low <? thr) && (low <? v) then
+    if (low <? thr) && (u || (low <? v)) then
       obind (rd_read_bit r) (fun br =>
-        if fst br =? 0 then tt_dec_loop f (snd br) (low + 1) thr v
-        else tt_dec_loop f (snd br) low thr low)
-    else Ok (low, v, r)
+        if fst br =? 0 then tt_dec_loop f (snd br) (low + 1) thr v u
+        else tt_dec_loop f (snd br) low thr low false)
+    else Ok (low, v, u, r)
   end.
 
 Fixpoint tt_dec_nodes (t : ttree) (ids : list (Z * Z)) (low thr : Z) (r : rd) : outcome (ttree * rd) :=
@@ -174,13 +184,16 @@ Fixpoint tt_dec_nodes (t : ttree) (ids : list (Z * Z)) (low thr : Z) (r : rd) : 
   | (lv, idx) :: rest =>
     let nlow := get2 (tt_low t) lv idx 0 in
     let low1 := if low >? nlow then low else nlow in
-    obind (tt_dec_loop (loop_fuel low1 thr) r low1 thr (get2 (tt_nodes t) lv idx 0)) (fun res =>
-      let '(low2, v2, r2) := res in
-      let t2 := tt_with t (set2 (tt_nodes t) lv idx v2) (set2 (tt_low t) lv idx low2) (tt_known t) in
+    obind (tt_dec_loop (loop_fuel low1 thr) r low1 thr (get2 (tt_nodes t) lv idx 0)
+                       (get2 (tt_unset t) lv idx false)) (fun res =>
+      let '(low2, v2, u2, r2) := res in
+      let t2 := tt_with t (set2 (tt_nodes t) lv idx v2) (set2 (tt_low t) lv idx low2) (tt_known t)
+                        (set2 (tt_unset t) lv idx u2) in
       tt_dec_nodes t2 rest low2 thr r2)
   end.
 
-(* Decode(br, x, y, threshold) -> value of the leaf node *)
+(* Decode(br, x, y, threshold): the leaf node's value, or the threshold when the leaf is still
+   unset and the threshold exceeds the placeholder *)
 Definition tt_decode (t : ttree) (r : rd) (x y thr : Z) : outcome (Z * ttree * rd) :=
   if negb (tt_in_range t x y) then Err else
   let p := tt_path t x y in
@@ -189,7 +202,9 @@ Definition tt_decode (t : ttree) (r : rd) (x y thr : Z) : outcome (Z * ttree * r
   | [] => Panic                                             (* stack[0] of an empty stack *)
   | (llv, lidx) :: _ =>
     obind (tt_dec_nodes t (rev p) 0 thr r) (fun tr =>
-      Ok (get2 (tt_nodes (fst tr)) llv lidx 0, fst tr, snd tr))
+      let t' := fst tr in
+      let nd := get2 (tt_nodes t') llv lidx 0 in
+      Ok ((if get2 (tt_unset t') llv lidx false && (thr >? nd) then thr else nd), t', snd tr))
   end.
 
 (* DecodeInclusion(x, y, currentLayer): value > currentLayer -> (false, -1) else (true, value) *)
